@@ -34,11 +34,14 @@ ResultFails(tb, e) ==
        [] k = "loc_port"   -> \A i \in 1..Len(e.loc) : e.loc[i].dport = e.loc[i].id
        [] k = "matches"    -> e.matches \in { Len(e.loc), Len(e.loc) + e.dflt }
        [] k = "object"     -> e.obj_restored /\ (\A i \in 1..Len(e.noloc) : e.noloc[i].obj_ok) /\ (\A i \in 1..Len(e.loc) : e.loc[i].obj_ok) }
+\* a line may come from a table built through MergePorts / ClonePorts (route): the derived table must have the ports of the
+\* original, in order (PortTree.tla: MergeOfOverlappingHalves, CloneTable), and is then judged like the original
 DispatchFails(r) ==
   IF r.sig # 0 THEN {"crash_or_hang"}
+  ELSE IF "route_shape" \in DOMAIN r /\ ~ r.route_shape THEN {"derived_table_differs"}
   ELSE UNION { ResultFails(r.table, r.results[i]) : i \in 1..Len(r.results) }
 \* which result is the first failing one (for the replay file)
-FirstBad(r) == IF r.k # "dispatch" \/ r.sig # 0 THEN 0
+FirstBad(r) == IF r.k # "dispatch" \/ r.sig # 0 \/ "results" \notin DOMAIN r THEN 0
                ELSE LET bad == { i \in 1..Len(r.results) : ResultFails(r.table, r.results[i]) # {} } IN
                     IF bad = {} THEN 0 ELSE CHOOSE i \in bad : \A j \in bad : i <= j
 
